@@ -25,6 +25,10 @@ CHECKS = {
  "C06": dict(tech="TLA+ rewrite machine over programs (Rewrite.tla: let/into/module naming, function extraction by beta-reduction, filter splitting, identity insertion) whose denotation-preservation is model-checked (RewriteMC); every reachable rewritten program replayed through prqlc+SQLite and validated by TLC (PrqlTrace)",
     text="TLC explores the rewrite graph of each base program (every applicable site and kind, compositions up to the depth) and checks on the model that each rewrite leaves the denotation (frame, possible worlds per database instance, order) unchanged; each rewritten program is then compiled, executed and validated against that denotation, so a disagreement is the implementation's",
     ref="DESIGN.md section 4 C06"),
+ "C08": dict(tech="TLA+ model of PRQL string literals (pieces, quote styles, documented escape table), of SQL emission and of ANSI / backslash-escaping SQL lexers (Literal.tla), model-checked over all literals up to a length (LiteralMC); numeric literals as digit sequences (Number.tla); replayed through prqlc for 12 dialects + SQLite and validated by TLC (LiteralTrace, NumberTrace)",
+    text="bounded-exhaustive over string literals (every documented escape, quotes, comment markers, newline, non-ASCII / non-BMP, 4 quote styles, raw strings): TLC checks the design-level lexing laws on the model; for each literal the value SQLite returns and the single string token each dialect's tokenizer reads from the emitted SQL must be the specified code points, and the surrounding statement must keep its token shape; numeric spellings are compared on digit sequences (exact for integers up to i64, 15 significant digits for floats)",
+    ref="DESIGN.md section 4 C08", cat="model_checking",
+    note="trusted: TLC; sqlparser's per-dialect tokenizers as the lexical oracle for the 11 dialects that cannot be executed; SQLite; float fidelity is only required to 15 significant digits (TLC has no floating point)"),
  "C10": dict(tech="TLA+ L1 language machine: scope model (known frames, ambiguity, arity) in Prql.tla; every ill-formed behaviour of PrqlMC replayed; acceptance of an ill-formed program rejected by TLC (PrqlTrace)",
     text="every program the bounded model marks ill-formed (reference to a dropped column, ambiguous bare name after join, arity mismatch) must make prqlc::compile return Err; every well-formed one must compile",
     ref="DESIGN.md section 4 C10"),
